@@ -194,7 +194,7 @@ PROPS["C17"] = {
     "level": "model_checking",
     "claim": "explicit-state BFS over sequences of the exported sparse-matrix operations on two real matrices (insert, find+delete, composite 'walk to entry Y, find X, delete Y by pointer, insert Z' in both orders for every triple of cells (X = Z with Y in the same row / column on matrices above 6 cells) executed without intermediate observation, clear, copy, copyrows/copycols with every index vector, the _opt variants into an empty destination, copy_filled_matrix with every order-preserving map, sparse->dense->sparse, free+reallocate) against a set model; after every step find <=> membership, idempotent insert, every row/column traversal lists exactly the members in increasing order forwards and backwards; run under AddressSanitizer and under the allocation tracker (freeing releases everything); entry blocks of 4 (hook) so that block exhaustion and recycling are reached. Large matrices (real block size 1024): complete enumeration of 13 shapes (64x64 .. 1030x1030, 1x70000, 70000x1, 2x66000, 66000x2) x 6 fill patterns x 4 insertion orders, each followed by one fixed script of every operation (delete a third, re-insert, copy, copy over a used matrix, copyrows/copycols and the _opt variants with reversed and repeating index vectors, copy_filled_matrix into a larger matrix, sparse->dense with a reused dense matrix ->sparse into a used matrix, 1500 (thorough 6000) insert/delete cycles, two clears and refills) with the full structure compared with the set model after every step",
     "rule": "state = (entry sets of A and B, free-list length, block count) reached by an operation history; closure complete for the small dimension pairs, depth/state-capped (reported) for the larger ones",
-    "bounds": {"quick": "dimension pairs 1x2/1x2, 2x1/2x2, 2x2/2x2, 2x2/2x3, 1x3/2x3, 3x1/3x2, 1x4/1x4 to closure; 2x3/3x3 to depth 5; large: 13 shapes x 6 patterns x 4 orders (2 orders on shapes above 70000 cells)", "thorough": "large: all 312 scripts, also under ASan; small: same to closure; 2x3/2x3 depth 10, 2x3/3x3 depth 7, 3x3/3x3 depth 6, 2x4/3x4 depth 6, 3x4/4x4 depth 5 or 10^6 states"},
+    "bounds": {"quick": "dimension pairs 1x2/1x2, 2x1/2x2, 2x2/2x2, 2x2/2x3, 1x3/2x3, 3x1/3x2, 1x4/1x4 to closure; 2x3/3x3 to depth 5; large: 13 shapes x 6 patterns x 4 orders (2 orders on shapes above 70000 cells); the same script on EVERY dimension 5..220 (thorough ..500) as a column count and every third as a row count, pattern and order rotating", "thorough": "large: all 312 scripts, also under ASan; small: same to closure; 2x3/2x3 depth 10, 2x3/3x3 depth 7, 3x3/3x3 depth 6, 2x4/3x4 depth 6, 3x4/4x4 depth 5 or 10^6 states"},
     "assumptions": ["library built with -DOPENFEC_VERIF -DOPENFEC_VERIF_SPARSE_BLOCK=4 (hook 744ff62): block size 4 instead of 1024", "_opt copies are only exercised into an empty destination (their internal clear is commented out upstream, so a non-empty destination is not an in-range use)"],
     "runs": [{"name": "sparse-asan", "src": "h_sparse.c", "variant": "asan", "lib_defs": ["-DOPENFEC_VERIF_SPARSE_BLOCK=4"]},
              {"name": "sparse-trk", "src": "h_sparse.c", "variant": "trk", "lib_defs": ["-DOPENFEC_VERIF_SPARSE_BLOCK=4"]},
@@ -205,7 +205,7 @@ PROPS["C17"] = {
 
 PROPS["C18"] = {
     "level": "model_checking",
-    "claim": "dense ops: depth-bounded explicit-state BFS over sequences of set/flip/clear/copy/copyrows(all index vectors)/copycols(5 column maps)/xor_rows on two real matrices for column counts 1,31,32,33,64,65 against a byte-per-bit model, every cell / row weight / column weight / emptiness / density / row_weight_ignore_first(multiples of 32) / hweight_array compared after every step, under AddressSanitizer; popcount helpers: all 2^32 arguments of of_hweight32, _table, _naive, all 256 of of_hweight8_table, boundary patterns for of_popcount_3 / of_hweight_array; solver: every p x q binary system for q<=p<=4, (5,<=4), (6,<=3) and every 4x4 block embedded at both word boundaries of a 66-column identity-completed system, with and without NULL (zero) right-hand sides, symbol lengths 1,8,9: OK <=> full column rank and the variables equal the known solution (right-hand sides given as symbols, with null sums given as NULL for pairwise different variables, and with null sums given as NULL for all-equal variables so that every even-weight equation has no constant term). Large: 12 shapes up to 1000 rows / 4097 columns x 6 content patterns, one script of every dense operation each (set, flip, set 0, xor_rows across the 255/256 row border, copy / copyrows / copycols into used and larger matrices, clear) with all cells, weights, emptiness, density, ignore_first compared after every step; 12 structured system families (triangular, staircase, hashed, duplicate / zero column ...) x 12 sizes q = 9..130 x (p = q, q+3) x symbol lengths 1..1000 x 3 right-hand-side modes; EVERY number of unknowns 5..200 (thorough ..400) on four families x (p = q, q+3)",
+    "claim": "dense ops: depth-bounded explicit-state BFS over sequences of set/flip/clear/copy/copyrows(all index vectors)/copycols(5 column maps)/xor_rows on two real matrices for column counts 1,31,32,33,64,65 against a byte-per-bit model, every cell / row weight / column weight / emptiness / density / row_weight_ignore_first(multiples of 32) / hweight_array compared after every step, under AddressSanitizer; popcount helpers: all 2^32 arguments of of_hweight32, _table, _naive, all 256 of of_hweight8_table, boundary patterns for of_popcount_3 / of_hweight_array; solver: every p x q binary system for q<=p<=4, (5,<=4), (6,<=3) and every 4x4 block embedded at both word boundaries of a 66-column identity-completed system, with and without NULL (zero) right-hand sides, symbol lengths 1,8,9: OK <=> full column rank and the variables equal the known solution (right-hand sides given as symbols, with null sums given as NULL for pairwise different variables, and with null sums given as NULL for all-equal variables so that every even-weight equation has no constant term). Large: 12 shapes up to 1000 rows / 4097 columns x 6 content patterns, one script of every dense operation each (set, flip, set 0, xor_rows across the 255/256 row border, copy / copyrows / copycols into used and larger matrices, clear) with all cells, weights, emptiness, density, ignore_first compared after every step; 12 structured system families (triangular, staircase, hashed, duplicate / zero column ...) x 12 sizes q = 9..130 x (p = q, q+3) x symbol lengths 1..1000 x 3 right-hand-side modes; EVERY number of unknowns 5..200 (thorough ..400) on four families x (p = q, q+3); the dense-operation script on EVERY column count 1..300 (thorough ..700) with a row count derived from it (and, every fifth, as a row count)",
     "rule": "ops: state = (bit contents of both matrices incl. padding words) reached by an operation history; popcnt: every 32-bit word; solver: every binary matrix of the listed shapes",
     "bounds": {"quick": "ops depth 4; popcnt complete; solver: all shapes, lengths rotated for the two largest shapes, every 4th embedded block", "thorough": "ops depth 5 (ASan) and 6 (plain, 2e6-state cap); solver: all lengths x all matrices x all embedded blocks"},
     "assumptions": ["of_mod2dense_row_weight_ignore_first only for multiples of 32 (undefined otherwise)", "rows of a copycols destination beyond the source's row count are not defined by the operation and are resynchronised"],
